@@ -110,10 +110,12 @@ type Vocab struct {
 	DefBool  map[string]bool
 	Axioms   []struct{ Name, SMT string }
 	TypeInvs map[string][]Clause // typeName (without *) -> invariants over `this`
+	Guards   map[string]Clause   // "typeName.field" -> condition over `this` under which the field may be touched
+	UseGuard map[string]Clause   // "typeName.field" -> condition under which the object stored in the field may be called / handed to a callee
 }
 
 func newVocab() *Vocab {
-	return &Vocab{Ghost: map[string]*GhostField{}, UFuns: map[string]int{}, UPreds: map[string]int{}, DefName: map[string]int{}, DefBool: map[string]bool{}, TypeInvs: map[string][]Clause{}}
+	return &Vocab{Ghost: map[string]*GhostField{}, UFuns: map[string]int{}, UPreds: map[string]int{}, DefName: map[string]int{}, DefBool: map[string]bool{}, TypeInvs: map[string][]Clause{}, Guards: map[string]Clause{}, UseGuard: map[string]Clause{}}
 }
 
 var reLabel = regexp.MustCompile(`^([A-Za-z_][A-Za-z0-9_]*)\s*(\[[A-Z0-9, ]+\])?\s*:\s*(.*)$`)
@@ -318,6 +320,20 @@ func parseContractText(lines []string, file string, pkgPath string, voc *Vocab) 
 			}
 			voc.TypeInvs[tn] = append(voc.TypeInvs[tn], c)
 			continue
+		case word == "guarded" || word == "guardeduse":
+			// guarded <type>.<field> label [props]: expr over this      (every access of the field)
+			// guardeduse <type>.<field> label [props]: expr over this   (every call on / with the object stored in the field)
+			j := strings.IndexAny(rest, " \t")
+			c, err := parseClause(strings.TrimSpace(rest[j:]), file, lineNo)
+			if err != nil {
+				return fail(err)
+			}
+			if word == "guarded" {
+				voc.Guards[rest[:j]] = c
+			} else {
+				voc.UseGuard[rest[:j]] = c
+			}
+			continue
 		case word == "axiom":
 			j := strings.Index(rest, ":")
 			voc.Axioms = append(voc.Axioms, struct{ Name, SMT string }{strings.TrimSpace(rest[:j]), strings.TrimSpace(rest[j+1:])})
@@ -432,6 +448,11 @@ func parseContractText(lines []string, file string, pkgPath string, voc *Vocab) 
 			if m == nil {
 				if m2 := regexp.MustCompile(`^before\s+call\[([^\]]+)\]\s*:\s*(.*?)\s*:=\s*(.*)$`).FindStringSubmatch(rest); m2 != nil {
 					m = []string{m2[0], "before:" + m2[1], m2[2], m2[3]}
+				}
+			}
+			if m == nil {
+				if m2 := regexp.MustCompile(`^after\s+(go\[\d+\])\s*:\s*(.*?)\s*:=\s*(.*)$`).FindStringSubmatch(rest); m2 != nil {
+					m = []string{m2[0], m2[1], m2[2], m2[3]}
 				}
 			}
 			if m == nil {
@@ -584,10 +605,16 @@ func qualifyKey(k, pkgPath string) string {
 	return pkgPath + "." + k
 }
 
+// contractOverlay replaces the text of contract files (development and the must-fail corpus only).
+var contractOverlay map[string][]byte
+
 func readContractFile(path string, pkgPath string, voc *Vocab) ([]*Contract, error) {
 	data, err := os.ReadFile(path)
 	if err != nil {
 		return nil, err
+	}
+	if ov, ok := contractOverlay[path]; ok {
+		data = ov
 	}
 	var lines []string
 	isGo := strings.HasSuffix(path, ".go")
